@@ -31,7 +31,7 @@ COUNTS = {'quick': 200, 'thorough': 5000}
 BUDGET = {'quick': 110, 'thorough': 1500}
 TIMEOUT = 240
 SHRINK_LISTS = [['ops']]
-EXPECTED_PROBES = ['twin_compared', 'sweep_rounds', 'alter_tconst', 'after_tds', 'after_snapshot', 'after_reset', 'dense_As_checked',
+EXPECTED_PROBES = ['zero_tc', 'unzero_tc', 'sweep_to_zero', 'twin_compared', 'sweep_rounds', 'alter_tconst', 'after_tds', 'after_snapshot', 'after_reset', 'dense_As_checked',
                    'pencil_checked', 'zero_time_constants', 'invariants_checked']
 RULE = ('plan = (stock dynamic case, seeded op history over {eig, alter, sweep, flat tds, snapshot, reset}); non-trivial = at least one '
         'eigenvalue result after a history step was compared with the fresh twin; distinct = (case, op sequence, parameter kinds)')
@@ -62,6 +62,11 @@ def plans(seed, tier, count):
     out = []
     for i, c in enumerate(cases()):
         out.append({'property': PROP, 'seed': core.H('fix08', i), 'case': c['case'], 'ops': [{'op': 'eig'}]})
+    for j, c in enumerate(['kundur/kundur_full.xlsx', 'ieee14/ieee14_esst3a.xlsx', 'kundur/kundur_exst1.xlsx']):
+        out.append({'property': PROP, 'seed': core.H('fix08z', j), 'case': c,
+                    'ops': [{'op': 'eig'}, {'op': 'zero_tc', 'pick': 0.1 + 0.3 * j, 'factors': [1.0]}, {'op': 'eig'},
+                            {'op': 'unzero_tc', 'pick': 0.4, 'factors': [1.0]}, {'op': 'eig'},
+                            {'op': 'sweep0', 'pick': 0.2, 'factors': [2.0, 1.0, 0.0]}]})
     i = 0
     while len(out) < count:
         out.append({'stub': True, 'seed': core.H(seed, PROP, i), 'tier': tier})
@@ -80,6 +85,13 @@ def elaborate(stub):
         ops.append({'op': k, 'pick': o.random(), 'factors': [o.choice([0.5, 0.8, 1.5, 2.0]) for _ in range(o.choice([1, 2, 3]))]})
         if k in ('alter', 'tds', 'snapshot', 'reset'):
             ops.append({'op': 'eig'})
+        # a time constant moved to or from zero between two analyses (the state changes class: differential <-> algebraic)
+        z = stream(seed, 'zero%d' % len(ops))
+        if z.random() < 0.3:
+            kz = z.choice(['zero_tc', 'zero_tc', 'unzero_tc', 'sweep0'])
+            ops.append({'op': kz, 'pick': z.random(), 'factors': [z.choice([2.0, 1.0, 0.5]), 0.0] if kz == 'sweep0' else [1.0]})
+            if kz != 'sweep0':
+                ops.append({'op': 'eig'})
     if ops[-1]['op'] not in ('eig', 'sweep'):
         ops.append({'op': 'eig'})
     return {'property': PROP, 'seed': seed, 'case': c['case'], 'ops': ops}
@@ -106,6 +118,15 @@ def tconst_targets(ss):
         if name in ('GENROU', 'GENCLS') and 'D' in mdl.num_params:
             out.append((name, 'D'))
     return sorted(set(out))
+
+
+def zero_targets(ss):
+    """(model, 'TR'): voltage-transducer lags of exciters, which the model documentation allows to be zero."""
+    out = []
+    for name, mdl in ss.Exciter.models.items():
+        if mdl.n and 'TR' in mdl.num_params and any(st.t_const is mdl.TR for st in mdl.states.values()):
+            out.append((name, 'TR'))
+    return sorted(out)
 
 
 def dense(sp):
@@ -238,15 +259,42 @@ def execute(plan):
                 mdl.alter(pn, idx, new)
                 altered[(name, pn, idx)] = new
                 probes['alter_tconst'] = probes.get('alter_tconst', 0) + 1
-            elif k == 'sweep':
+            elif k in ('zero_tc', 'unzero_tc'):
+                if not ss.TDS.initialized:
+                    ss.TDS.init()
+                tg = zero_targets(ss)
+                if not tg:
+                    continue
+                name, pn = tg[int(op['pick'] * len(tg)) % len(tg)]
+                mdl = ss.models[name]
+                uid = int(op['pick'] * 997) % mdl.n
+                idx = mdl.idx.v[uid]
+                cur = float(np.asarray(mdl.__dict__[pn].v)[uid])
+                if k == 'zero_tc':
+                    if cur == 0:
+                        continue
+                    new = 0.0
+                else:
+                    zeros = [u for u in range(mdl.n) if float(np.asarray(mdl.__dict__[pn].v)[u]) == 0]
+                    if not zeros:
+                        continue
+                    uid = zeros[int(op['pick'] * 991) % len(zeros)]
+                    idx = mdl.idx.v[uid]
+                    new = 0.02
+                mdl.alter(pn, idx, new)
+                altered[(name, pn, idx)] = new
+                probes[k] = probes.get(k, 0) + 1
+            elif k in ('sweep', 'sweep0'):
                 if not ss.TDS.initialized:
                     ss.TDS.init()
                 if np.any(ss.dae.Tf == 0) and singular_algebraic_block(ss):
                     res['precondition_unmet'] = 1
                     continue
-                tg = tconst_targets(ss)
+                tg = tconst_targets(ss) if k == 'sweep' else [t for t in zero_targets(ss) if float(np.asarray(ss.models[t[0]].TR.v)[0]) != 0]
                 if not tg:
                     continue
+                if k == 'sweep0':
+                    probes['sweep_to_zero'] = probes.get('sweep_to_zero', 0) + 1
                 name, pn = tg[int(op['pick'] * len(tg)) % len(tg)]
                 mdl = ss.models[name]
                 idx = mdl.idx.v[0]
